@@ -179,7 +179,16 @@ def run(ctx):
 
     def sample_local(f):
         """the function-level ResourcePressure local: this tick's sample (the per-cgroup one lives inside the loop)"""
-        c = [n_ for n_, v_ in function_level_locals(f, r"(^|::)ResourcePressure$")]
+        # the one that is recorded as 'last sample' when there is such a record, else the only one of that type
+        rec = set()
+        for g_ in [f] + list(P.lambdas_in(f)):
+            for w_ in field_writes(g_, "last_pressure_"):
+                t_ = g_.text(write_rhs(g_, w_))
+                if re.match(r"^\w+$", t_):
+                    rec.add(t_)
+        if len(rec) == 1:
+            return rec.pop()
+        c = [n_ for n_, v_ in function_level_locals(f, r"(^|::)ResourcePressure( &)?$")]
         if len(c) != 1:
             raise AnalysisBroken("anchor: %s has %d function-level ResourcePressure locals %s; the rules need exactly one (this tick's sample)" % (f.pq, len(c), c))
         return c[0]
@@ -202,8 +211,7 @@ def run(ctx):
     for f, watched, who in ((pa, PA_S + ".sec_10", "pressure_above"), (ma, MA_W, "memory_above")):
         fl, key, AGE = window_rules(ctx, f, watched, who=who)
         seen = set()
-        for r, leaf in return_leaves(f):
-            c = ret_const_of(f, leaf)
+        for r, leaf, c in result_sites(f):
             g = fl.guards(leaf)
             seen.add(c)
             if c == "CONTINUE":
@@ -218,8 +226,7 @@ def run(ctx):
     K10 = "(this->threshold_ < %s.sec_10)" % S
     FALL = ("(%s.sec_10 < (this->last_pressure_.sec_10 * this->fast_fall_ratio_))" % S, "(%s.sec_10 < (this->fast_fall_ratio_ * this->last_pressure_.sec_10))" % S)
     fl2 = Flow(P, prb, cg=cg)
-    for r, leaf in return_leaves(prb):
-        c = ret_const_of(prb, leaf)
+    for r, leaf, c in result_sites(prb):
         g = fl2.guards(leaf)
         if c == "CONTINUE":
             full, how = window_full(prb, fl2, g, key, AGE)
@@ -274,8 +281,7 @@ def run(ctx):
     ctx.check(v is not None and re.match(r"^std::chrono::duration_cast\(\(%s - this->last_reclaim_at_\)\)\.count\(\)$" % re.escape(NOW), hoist_text(mr, init, P)) is not None, "memory_reclaim:age", "value-shape", mr.loc(),
               "age = seconds(now - last_reclaim_at_)", "age = " + (mr.text(init) if v else "?"))
     agek = "(this->duration_ < %s)" % AGE
-    for r, leaf in return_leaves(mr):
-        c = ret_const_of(mr, leaf)
+    for r, leaf, c in result_sites(mr):
         g = fm.guards(leaf)
         le = (agek, False) in g
         gt = (agek, True) in g
@@ -301,8 +307,7 @@ def run(ctx):
     LOW = re.compile(r"^\(\(%s\.swaptotal - %s\.swapused\) < \(\(%s\.swaptotal \* this->threshold_pct_\) / 100\)\)$" % (SYS, SYS, SYS))
     RATE = re.compile(r"^\(%s\.swapout_bps < this->swapout_bps_threshold_\)$" % SYS)
     n_low = 0
-    for r, leaf in return_leaves(sf):
-        c = ret_const_of(sf, leaf)
+    for r, leaf, c in result_sites(sf):
         g = expanded_guards(P, sf, fs_, leaf, Xs)
         low = any(LOW.match(k) and p is True for k, p in g if isinstance(k, str))
         rate = any(RATE.match(k) and p is False for k, p in g if isinstance(k, str))
@@ -367,8 +372,7 @@ def run(ctx):
     # ------------------------------------------------ nr_dying_descendants
     nd = ctx.fn1("Oomd::NrDyingDescendants::run")
     fn_ = Flow(P, nd, cg=cg)
-    for r, leaf in return_leaves(nd):
-        c = ret_const_of(nd, leaf)
+    for r, leaf, c in result_sites(nd):
         g = fn_.guards(leaf)
         if c == "CONTINUE":
             comp = [k for k, p in g if p is True and "lte_" in k and "count_" in k]
